@@ -166,6 +166,14 @@ bool buffergroup::turn_iter()
   return true;
 };
 /*
+wait_buffer_loaded:等待缓冲区首次装载完成(工作线程在首次取表项前调用)
+id:缓冲区标号
+*/
+void buffergroup::wait_buffer_loaded(const u8_t id)
+{
+  ctrl[id].wait_ready();
+}
+/*
 require_buffer_entry:获取下一个缓冲区表项
 id:缓冲区标号
 return:表项地址，若缓冲区已经读取完毕返回NULL
